@@ -329,9 +329,9 @@ func nilGuardRule(c *Ctx, rule string, floor int) {
 // and `valid := h.P != nil && ...; if valid { h.P[0] }` are decided this way.
 func unguardedPathExists(fn *ssa.Function, at ssa.Instruction, path string) bool {
 	type fact struct {
-		v   ssa.Value
-		k   string // constant (ExactString), or "" for bool facts
-		eq  bool
+		v  ssa.Value
+		k  string // constant (ExactString), or "" for bool facts
+		eq bool
 	}
 	var facts []fact
 	boolFacts := map[ssa.Value]bool{}
